@@ -102,6 +102,11 @@ func (e *Engine) intrinsic(fn *ssa.Function, name string, args []Value, st *Stat
 	if fn.Pkg != nil && strings.HasPrefix(fn.Pkg.Pkg.Path(), "verifh") {
 		return nil, false
 	}
+	if strings.HasPrefix(name, "reflect.") || strings.HasPrefix(name, "(reflect.") || strings.HasPrefix(name, "(*reflect.") {
+		if outs, ok := e.reflectCall(fn, name, args, st, depth, site); ok {
+			return outs, true
+		}
+	}
 	switch name {
 	case "fmt.Sprintf":
 		f, ok := cstr(args[0])
@@ -146,6 +151,9 @@ func (e *Engine) intrinsic(fn *ssa.Function, name string, args []Value, st *Stat
 	case "unicode/utf8.ValidString":
 		if s, ok := cstr(args[0]); ok {
 			return one(st, Bool(utf8.ValidString(s))), true
+		}
+		if s, ok := args[0].(*Str); ok && s.sel == nil {
+			return one(st, strValidUTF8(s)), true
 		}
 		return nil, false
 	case "strings.Repeat":
@@ -199,6 +207,11 @@ func (e *Engine) intrinsic(fn *ssa.Function, name string, args []Value, st *Stat
 				}
 				return Bool(strings.EqualFold(o, b))
 			})), true
+		}
+		if name == "strings.Contains" && ok2 {
+			if s, ok := args[0].(*Str); ok && s.sel == nil {
+				return one(st, strContainsConst(s, b)), true
+			}
 		}
 		if sb, ok := args[1].(*Str); ok && sb.sel != nil && ok1 && name == "strings.EqualFold" {
 			return one(st, e.liftChoice(sb, func(o string) Value { return Bool(strings.EqualFold(a, o)) })), true
@@ -353,6 +366,11 @@ func (e *Engine) intrinsic(fn *ssa.Function, name string, args []Value, st *Stat
 		t := args[0].(*Term)
 		return one(st, e.fmtInt(t, true)), true
 	case "strconv.Quote":
+		if e.realQuote {
+			if s := args[0].(*Str); !s.isC && s.sel == nil {
+				return nil, false
+			}
+		}
 		return one(st, e.quote(args[0].(*Str))), true
 	case "strconv.ParseInt", "strconv.ParseUint", "strconv.ParseFloat", "strconv.ParseBool", "strconv.Atoi", "strconv.Unquote":
 		if out, ok := e.strconvParse(fn, name, args, st, site); ok {
@@ -409,6 +427,9 @@ func (e *Engine) intrinsic(fn *ssa.Function, name string, args []Value, st *Stat
 			}
 			return one(st, Bool(b)), true
 		}
+		if name == "strconv.IsPrint" || name == "unicode.IsPrint" {
+			return one(st, isPrintTerm(args[0].(*Term), name == "unicode.IsPrint")), true
+		}
 		e.unsupported("%s on symbolic rune", name)
 	case "unicode.ToLower", "unicode.ToUpper":
 		if r, ok := cint(args[0]); ok {
@@ -452,6 +473,10 @@ func (e *Engine) intrinsic(fn *ssa.Function, name string, args []Value, st *Stat
 		e.unsupported("errors.Is: chain too long")
 	case "errors.As":
 		e.unsupported("%s", name)
+	}
+	switch name {
+	case "(encoding/json.Number).String", "(encoding/json.Number).Int64", "(encoding/json.Number).Float64":
+		return nil, false // three one-line conversions through strconv: executed from source
 	}
 	if fn.Pkg != nil {
 		switch fn.Pkg.Pkg.Path() {
